@@ -68,7 +68,6 @@ class Compare(Job):
         if out.raised:
             return [("aggregation does not raise on equal-length vectors", FALSE)]
         obl = shape_obligations(out, self.n)
-        obl.append(("result dtype is uint8", TRUE if out.dtype == "uint8" else FALSE))
         for i in range(self.n):
             vals = [self._val(S.v[j][i]) for j in range(self.k)]
             masks = [S.m[j][i].b if self.masked else FALSE for j in range(self.k)]
